@@ -273,6 +273,7 @@ class FakeClient:
     def __init__(self, s3, sched, plan=NO_FAULTS, rcc='when_required',
                  body_read_size=None, name='client', validate=True,
                  body_protocols=None, stream_pattern='full', http=False):
+        self.send_think = 0         # virtual seconds the "socket" waits before each send read
         self.http = http            # plain-http endpoint: checksum in a header, computed before the request exists
         self.s3 = s3
         self.sched = sched
@@ -625,6 +626,8 @@ class FakeClient:
             data = b''
             retry = False
             while True:
+                if self.send_think:
+                    s.sleep(self.send_think, label='socket')      # a slow socket: wire demand below the limit
                 s.point('body.read', rec['id'])
                 size = rd
                 if plan.on('body:short'):
